@@ -494,7 +494,7 @@ example : (run { length := some 6, maxbytes := some 3, bufsize := 2 }
 example : (run { length := some 3, maxbytes := none, bufsize := 8 }
     (init [97,10,98,99,100] [] none) [.readlines none, .read none]) =
       ([.lines [[97,10],[98]], .bytes []],
-       { src := [99,100], frag := [], failAt := none, off := 3, buffer := [], bytesRead := 3, done := true }) := by
+       { src := [99,100], frag := [], failAt := none, off := 3, buffer := [], bytesRead := 3, done := true, fins := 2 }) := by
   decide
 
 /-- … and the server-wide limit event is mapped to 413. -/
